@@ -1901,6 +1901,8 @@ fn random_session(rng: &mut Rng) -> SessionSpec {
     let alloc_mode = match rng.below(4) {
         0 => alloc::MOVE,
         1 => alloc::POISON,
+        // (no extra draw, so the sessions themselves stay what they were) boxes scattered over all alignments
+        2 => alloc::SCATTER0 + ((nlines as u64 * 41 + fail_ratio) % 200) as u8,
         _ => alloc::PLAIN,
     };
     let mut g = SGen::new(rng);
